@@ -391,10 +391,18 @@ func searchRace(rep *report, d diag, budget time.Duration, g *lib.Rng) (bool, ev
 				ev.Store, ev.A, ev.B, ev.Mode, ev.Evidence, ev.Seconds = store, method, c, mode, txt, time.Since(t0).Seconds()
 				if mode == "race" {
 					// try to upgrade the evidence to the fault a production (non-race) build shows
-					if out2 := runPair(store, method, c, "plain", 6*time.Second, int64(g.Intn(1<<30))); strings.Contains(out2, "fatal error: concurrent map") {
-						_, t2 := raceOnGuarded(rep, out2)
-						ev.Evidence += "\n--- and under plain execution (no race detector), same pair:\n" + t2
-						ev.Tried = append(ev.Tried, fmt.Sprintf("%s || %s (plain, <=6s): process killed by the runtime", method, c))
+					for _, c2 := range cands {
+						out2 := runPair(store, method, c2, "plain", 2*time.Second, int64(g.Intn(1<<30)))
+						if strings.HasPrefix(out2, "@@NOPLAIN") {
+							ev.Tried = append(ev.Tried, out2)
+							break
+						}
+						ev.Tried = append(ev.Tried, fmt.Sprintf("%s || %s (plain, 2.0s)", method, c2))
+						if strings.Contains(out2, "fatal error: concurrent map") {
+							_, t2 := raceOnGuarded(rep, out2)
+							ev.Evidence += "\n--- and under plain execution (no race detector), " + method + " || " + c2 + ": the process is killed by the runtime:\n" + t2
+							break
+						}
 					}
 				}
 				return true, ev
